@@ -646,6 +646,17 @@ class Model:
             return pyv(("emptydict", e.args[0].id))        # typed by the contract's `locals` entry at the assignment; default factory remembered there
         if ast.unparse(e.func) in ("collections.OrderedDict", "OrderedDict") and not e.args and not e.keywords:
             return pyv(("emptydict",))                     # an empty insertion-ordered mapping (dict order is insertion order in the model anyway)
+        if ast.unparse(e.func) in ("collections.OrderedDict", "OrderedDict", "dict") and len(e.args) == 1 and not e.keywords \
+                and isinstance(e.args[0], (ast.ListComp, ast.GeneratorExp)) and isinstance(e.args[0].elt, ast.Tuple) and len(e.args[0].elt.elts) == 2 \
+                and len(e.args[0].generators) == 1 and "dict" not in st.env:
+            # OrderedDict([(k, v) for k, v in m.items() if c]) is the mapping {k: v for k, v in m.items() if c} (keys of a mapping are distinct, so no
+            # later pair overwrites an earlier one); only the shapes dict_comprehension accepts are taken
+            dc = ast.DictComp(key=e.args[0].elt.elts[0], value=e.args[0].elt.elts[1], generators=e.args[0].generators)
+            ast.copy_location(dc, e)
+            ast.fix_missing_locations(dc)
+            r = self.dict_comprehension(ex, dc, st)
+            if r is not None:
+                return r
         r = self.defaultdict_update(ex, e, st)
         if r is not None:
             return r
